@@ -135,9 +135,12 @@ package dnsserver
 //@ before NewReader#0 assert[pinned-under-lock] held(h.reloadMu) == 1
 
 // every per-type counter key is "DNS_query.<TYPE>": its 10th byte is '.', unlike any fixed counter name
+// (the shape clause needs a content model of fmt.Sprintf: assumed, listed as unclaimed). The body is verified
+// for what C14 needs: the function runs on every query goroutine without a lock, so it writes nothing shared
+// — in particular not the package-level typeToStats map, which is read-only after init.
 //@ func typeToStatsKey
-//@ trusted
 //@ pure
+//@ flag unclaimed post/
 //@ ensures len(result) >= 10 && result[9] == '.'
 
 //@ func GetMaxAnswer
